@@ -36,12 +36,14 @@ struct Pool {
   std::map<const void *, int> blk;                    // grid storage -> small id
   std::map<int, std::vector<T>> blkPts;               // contents at first sight
   std::vector<json> last;                             // last logged projection per slot
+  int nextBlk = 0;
   Pool() { reset(); }
   void reset() {
     s.clear();
     for (size_t i = 0; i < NSLOT; i++) s.push_back(std::make_unique<Obj>());
     blk.clear();
     blkPts.clear();
+    nextBlk = 0;
     last.assign(NSLOT, json{{"k", "null"}});
   }
   Obj &at(const json &c, const char *k) {
@@ -59,7 +61,7 @@ struct Pool {
     const void *p = g.getData().get();
     auto it = blk.find(p);
     if (it == blk.end()) {
-      const int id = static_cast<int>(blk.size()) + 1;
+      const int id = ++nextBlk;
       blk[p] = id;
       blkPts[id] = *g.getData();
       return id;
@@ -318,6 +320,16 @@ int main(int argc, char **argv) {
       }
       json rc = json::array();
       for (auto &kv : refs) rc.push_back(json::array({kv.first, uc[kv.first], kv.second}));
+      // a block no live slot refers to any more has been freed: forget its address, the
+      // allocator may hand the same address to a new grid
+      for (auto it = P.blk.begin(); it != P.blk.end();) {
+        if (refs.find(it->second) == refs.end()) {
+          P.blkPts.erase(it->second);
+          it = P.blk.erase(it);
+        } else {
+          ++it;
+        }
+      }
       ev["rc"] = rc;
       ev["heap_changed"] = heapChanged;
       // coefficient storage of distinct live splines must be distinct
